@@ -121,6 +121,8 @@ var errflowExceptions = map[string]string{
 	"planner.(*parallelNode).Prefixes→internal/planner.(*parallelNode).applyToPlans#1": "the callback passed here always returns nil (Prefixes has no error result); explicit `_ =`",
 	"planner.(*Planner).RunRequest→internal/planner.(planNode).Close#1":                "deferred Close of the executed plan after the result and error were decided; the assignment targets a non-result variable, so the close error is dropped — no state decision depends on it",
 	"planner.(*Planner).executeAndExplainRequest→internal/planner.(planNode).Start#1":  "explain-execute reports the failure inside the explain result by design (executionSuccess=false)",
+	"db.(*DB).basicExport→client.(*Document).Get#1":                                    "Get error means the relation field is not set on this document (inspected with `err == nil`)",
+	"db.(*DB).basicExport→internal/db.(*collection).Get#1":                             "a foreign key whose target cannot be read is exported as null by design (dangling relation); noted: a storage fault is treated the same way",
 	"db.(*DB).handleSubscription→internal/db.(*DB).NewTxn#1":                           "subscription evaluation goroutine (read-only, after the triggering commit): a failed NewTxn is logged and the event skipped; delivery completeness is the undecided remainder of C20",
 }
 
